@@ -1069,6 +1069,14 @@ func (env *SpecEnv) evalCall(c *ast.CallExpr) TV {
 			}
 			h := env.st.heapGet("[]"+typeName(et)+cs[0].Suffix, heapSort(2, cs[0].Sort))
 			return TV{Scalar{Select(h, sv.Arr)}, nil}
+		case "samearray":
+			// samearray(a, b): the two slices share backing array, offset and capacity (lengths may differ)
+			a, ok1 := env.eval(c.Args[0]).V.(SliceV)
+			b, ok2 := env.eval(c.Args[1]).V.(SliceV)
+			if !ok1 || !ok2 {
+				tool("spec: samearray of non-slices")
+			}
+			return TV{Scalar{And(Eq(a.Arr, b.Arr), Eq(a.Off, b.Off), Eq(a.Cap, b.Cap))}, boolT}
 		case "sliceoff":
 			sv, ok := env.eval(c.Args[0]).V.(SliceV)
 			if !ok {
